@@ -261,7 +261,8 @@ CHECKS["C08"] = dict(
                "are not injected.",
     rule="each (session, cut offset, ending) execution is one evaluation; non-trivial = cut after the CONNECT packet plus at least one further byte of a session "
          "that has requests (acknowledged state exists); distinct = distinct (session, cut, ending).",
-    legs=[dict(name="cut-points", test="^TestCutPoints$", quick=dict(n=40, procs=4, timeout=600), thorough=dict(n=3000, procs=14, timeout=3000))],
+    legs=[dict(name="cut-points", test="^TestCutPoints$", quick=dict(n=40, procs=4, timeout=600), thorough=dict(n=3000, procs=14, timeout=3000)),
+          dict(name="burst", test="^TestBurstWhileWatcherSlow$", kind="plain", quick=dict(n=2, procs=1, timeout=300), thorough=dict(n=20, procs=1, timeout=600))],
 )
 
 for _k in CHECKS:
